@@ -85,21 +85,29 @@ def main_aux(driver, where, aux):
             net.line[c] = v
     if driver == "_optimal_powerflow":
         for g in net.gen.index:
-            pp.create_poly_cost(net, g, "gen", cp1_eur_per_mw=1.)
-    before = tables(net)
+            if not ((net.poly_cost.element == g) & (net.poly_cost.et == "gen")).any():
+                pp.create_poly_cost(net, g, "gen", cp1_eur_per_mw=1.)
     inj = where.split("@", 1)[1] if where.startswith("raise@") else None
-    try:
-        if inj:
-            with Inject(inj):
-                calls[driver](net)
-        else:
-            calls[driver](net)
-    except Exception as e:
-        print("calculation raised", type(e).__name__, str(e)[:100])
-    d = diff(before, net)
-    if d and ("gen" in d or "vsc" in d):
-        print(f"VIOLATION REPRODUCED: {driver} ({where}): {d}")
-        sys.exit(1)
+    variants = [calls[driver]]
+    if driver == "_optimal_powerflow":
+        variants.append(lambda n: pp.runopp(n))      # the AC driver passes other call sites (init_results) than the DC one
+    import copy
+    d = None
+    for call in variants:
+        n2 = copy.deepcopy(net)
+        before = tables(n2)
+        try:
+            if inj:
+                with Inject(inj):
+                    call(n2)
+            else:
+                call(n2)
+        except Exception as e:
+            print("calculation raised", type(e).__name__, str(e)[:100])
+        d = diff(before, n2)
+        if d and ("gen" in d or "vsc" in d):
+            print(f"VIOLATION REPRODUCED: {driver} ({where}): {d}")
+            sys.exit(1)
     print("not reproduced", d or "")
     sys.exit(0)
 
